@@ -33,11 +33,21 @@ func (c Cfg) String() string {
 	return fmt.Sprintf("%s(%d) %s noflush=%v ext=%v op=%x", c.Ctor, c.N, side, c.NoFlush, c.Ext, byte(c.OpCode))
 }
 
+// State is the state value handed to the constructor: the side, plus the further bits a
+// caller's connection state carries (an extension is negotiated; a fragmented message is
+// being received). Only the side may matter to a writer.
 func (c Cfg) State() ws.State {
+	st := ws.StateServerSide
 	if c.Client {
-		return ws.StateClientSide
+		st = ws.StateClientSide
 	}
-	return ws.StateServerSide
+	if c.Ext {
+		st |= ws.StateExtended
+	}
+	if c.NoFlush {
+		st |= ws.StateFragmented
+	}
+	return st
 }
 
 // Rsv1First is the test extension: RSV1 on the first frame of every data message.
